@@ -381,3 +381,38 @@ def statistic_transforms_hit_zero_targets_too(ctx):
     """with_mean / with_variance / with_spread reach their target through impose_mean / impose_variance / impose_spread, which keep their affine constructions AND their case analysis: the samples come back unchanged only when both the statistic and the target are zero, nan only for degenerate samples - a zero target on ordinary samples must collapse them (shared with C18.b)"""
     from .c18 import affine_shape
     affine_shape(ctx)
+
+
+def connected_unites_groups(ctx):
+    """tools.connected (behind impose_as and impose_collapse) turns pairs into groups {key: members}: a pair that touches several
+    existing groups must unite them, and a key never sits in its own member set.  Structural necessary conditions: the scan over
+    the existing groups is not cut short at the first hit (no `break` in a loop over the groups, or all hits are collected), and
+    the key is removed from / never added to its own member set.  Shared by C16.j, C11.l, C18.h."""
+    f = ctx.func('mystic.tools:connected')
+    groups = None
+    for st in f.node.body:
+        if isinstance(st, ast.Assign) and len(st.targets) == 1 and isinstance(st.targets[0], ast.Name) and isinstance(st.value, ast.Dict) and not st.value.keys:
+            groups = st.targets[0].id
+    ctx.need(groups, 'connected: the groups dict is not found')
+    outer = [n for n in f.node.body if isinstance(n, ast.For)]
+    ctx.need(outer, 'connected: no loop over the pairs')
+    scans = [n for n in ast.walk(outer[0]) if isinstance(n, ast.For) and n is not outer[0] and groups in unparse(n.iter)]
+    cut = [b_ for n in scans for b_ in ast.walk(n) if isinstance(b_, ast.Break)]
+    collected = [n for n in ast.walk(outer[0]) if isinstance(n, (ast.ListComp, ast.GeneratorExp, ast.SetComp)) and any(groups in unparse(g.iter) for g in n.generators)]
+    ctx.check(not cut and (bool(collected) or bool(scans)), 'connected#all-groups', 'every group a pair touches is found (the scan over the groups is not cut at the first hit)',
+              'connected stops scanning the existing groups at the first one that contains a member of the pair: a pair that links two groups leaves them separate, so impose_as ties only part of a chain and the result depends on the order of the pairs',
+              f, cut[0] if cut else outer[0], statement='break at the first group that contains a member of the pair')
+    merges = [c for c in ast.walk(outer[0]) if isinstance(c, ast.Call) and isinstance(c.func, ast.Attribute) and c.func.attr == 'pop' and unparse(c.func.value) == groups]
+    ctx.check(bool(merges), 'connected#merge', 'groups linked by a pair are merged (the absorbed group is removed)',
+              'connected never merges two groups', f, outer[0], statement='no merge of groups')
+    selfless = [c for c in ast.walk(outer[0]) if (isinstance(c, ast.Call) and isinstance(c.func, ast.Attribute) and c.func.attr in ('discard', 'remove')) or
+                (isinstance(c, ast.BinOp) and isinstance(c.op, ast.Sub))]
+    ctx.check(len(selfless) >= 2, 'connected#key-not-member', 'the key of a group is kept out of its own member set (new group and extended group)',
+              'connected can put the key of a group into its own member set ((0,3),(3,0) or (1,1)): impose_collapse then counts that weight twice and total weight is not preserved',
+              f, outer[0], statement='key may be a member of its own group')
+
+
+@rule('C16.j', min_instances=3)
+def tracked_chains_are_tied_as_a_whole(ctx):
+    """impose_as ties x[k] to its tracked partner through tools.connected: chains of pairs given in any order form ONE group, so every partner in the chain ends up equal (+offset) whatever the order of the pairs"""
+    connected_unites_groups(ctx)
